@@ -202,6 +202,11 @@ pub fn build_rl(n: Option<usize>, runs: &[(usize, usize)], split: &[u8], redunda
                 b.try_set(start, len).expect("RLBuilder::try_set on a valid run");
             }
             start += len;
+            if redundant_set_len && (k + i) % 2 == 0 {
+                // documented no-ops in the middle of a run: must not split it
+                b.set_len(b.len());
+                b.set_len(0);
+            }
         }
         if redundant_set_len && k % 3 == 0 {
             // set_len never shrinks: these calls must have no effect
